@@ -3,6 +3,7 @@ package checks
 import (
 	"crypto/x509"
 	"fmt"
+	"math/big"
 	"strings"
 	"testing"
 	"testing/synctest"
@@ -34,7 +35,39 @@ func staticFault(r *core.Run, w *world.World, raw *[]byte, pool **x509.CertPool,
 		return w.A.PlatSpec
 	}
 	rebuild := func() { w.Build(false); *raw = w.Quote.Bytes() }
-	switch k := t.Draw(30); k {
+	switch k := t.Draw(35); k {
+	// a response that carries, next to the genuine issuer-chain header, a second one whose name differs only
+	// in letter case (a hand-written getter can produce that; net/http cannot) with another hierarchy's chain:
+	// whatever the verifier makes of it, it makes the same of it every time
+	case 33, 34:
+		X := world.NewPKI(t, "X", w.Epoch, w.A)
+		ep := w.PCS.Tcb[tcbKey]
+		name := world.HdrTcbInfo
+		if k == 34 {
+			ep, name = w.PCS.QE, world.HdrQE
+		}
+		ep.Hdr[strings.ToLower(name)] = []string{world.IssuerChainHeader(X.Tcb, X.Root)}
+		ep.Hdr[strings.ToUpper(name)] = []string{world.IssuerChainHeader(X.Tcb, X.Root)}
+		return "decoy-issuer-chain-header-under-case-variant-name"
+	// two Root CA CRL distribution points that serve different CRLs (one of them revoking the intermediate
+	// or a collateral signer): whichever the verifier goes by, it is the same one whatever the network timing
+	case 30, 31, 32:
+		urls := []string{world.RootCRLURL, "https://crl-b.example/root.der"}
+		if k == 31 {
+			urls[0], urls[1] = urls[1], urls[0]
+		}
+		w.RootInQE = w.A.ReissueRootSpec(func(s *world.CertSpec) { s.CRLDP = urls })
+		w.Publish()
+		clean := w.RootCrlDER
+		rv := w.RootCrl
+		if k == 32 {
+			rv.Revoked = append(append([]*big.Int(nil), rv.Revoked...), w.TcbSignerSerial())
+		} else {
+			rv.Revoked = append(append([]*big.Int(nil), rv.Revoked...), w.InterSerial())
+		}
+		w.PCS.ByURL[world.RootCRLURL] = &world.Endpoint{Body: world.MakeCRL(rv, w.A.Root, w.A.RootKey)}
+		w.PCS.ByURL["https://crl-b.example/root.der"] = &world.Endpoint{Body: clean}
+		return "two-distribution-points-serving-different-crls"
 	case 0, 1, 2:
 		return "none"
 	// out-of-date copies of certificates as carried in the quote and in the issuer-chain headers, while
@@ -203,6 +236,46 @@ func c12Levels(r *core.Run) {
 		r.Eventf("level=%s -> %s fetches=%d", optNames[level], errClass(o), len(logs[level]))
 	}
 	r.State("fault=%s ca=%s acc=%v%v%v", fault, w.CAID, acc[O0], acc[O1], acc[O2])
+	// the verdict depends on the fetched data, not on how long each fetch takes: the same world on networks
+	// with other service times (and on an instant one) gives the same verdicts
+	if w.PCS != nil {
+		saved := w.PCS.Latency
+		for _, prof := range []int{0, 1 + t.Draw(7), 1 + t.Draw(7)} {
+			if prof == 0 {
+				w.PCS.Latency = nil
+			} else {
+				w.PCS.Latency = world.LatencyProfile(prof)
+			}
+			for _, level := range []int{O1, O2} {
+				o := verifyRaw(raw, mkOpts(level, w.PCS, pool, times))
+				r.Eval()
+				if o.Accepted() != acc[level] {
+					r.Violate("C12:verdict-depends-on-network-timing", "fault %s, level %s: %s on the world's network (latency profile %d) but %s on latency profile %d — same quote, options and served data", fault, optNames[level],
+						tern(acc[level], "accepted", "rejected"), w.NetLat, tern(o.Accepted(), "accepted", "rejected"), prof)
+				}
+			}
+		}
+		w.PCS.Latency = saved
+		r.Probe("same_world_on_other_network_timings")
+		// ... nor on anything else that differs between two executions (iteration order of a map, say): the same
+		// verification repeated gives the same verdict every time
+		reps := 4
+		if strings.HasPrefix(fault, "decoy-") {
+			reps = 48
+		}
+		w.PCS.Latency = nil
+		for i := 0; i < reps; i++ {
+			level := O1 + i%2
+			o := verifyRaw(raw, mkOpts(level, w.PCS, pool, times))
+			r.Eval()
+			if o.Accepted() != acc[level] {
+				r.Violate("C12:verdict-not-a-function-of-inputs", "fault %s, level %s: repetition %d of the very same verification (fresh options, same quote, same served data) was %s, the first one %s", fault, optNames[level], i,
+					tern(o.Accepted(), "accepted", "rejected"), tern(acc[level], "accepted", "rejected"))
+				break
+			}
+		}
+		w.PCS.Latency = saved
+	}
 	if acc[O2] && !acc[O1] {
 		r.Violate("C12:more-checks-accept-more:O2>O1", "fault %s: accepted with collateral+revocation but rejected with collateral alone", fault)
 	}
@@ -425,7 +498,7 @@ func init() {
 	register(&core.Check{
 		ID:    "C12",
 		Level: "exploration",
-		Rule: "three kinds of runs. (A, half of the runs) one seeded world (platform or processor CA), honest or with one of 27 static faults (wire, endpoint, revocation, TCB status, clock, pool, signature; out-of-date copies of the root / intermediate / leaf / collateral signer / CRL issuer as carried in the quote and in issuer-chain headers while the pool holds the current root; stale CRL or TCB Info), verified under all four option settings with a recording fetcher: monotonicity acc(O2)=>acc(O1)=>acc(O0), O3 rejects, zero fetches without the collateral option, CRL routes only with revocation, fmspc / ca query parameters equal to what the CA put in the leaf. (B) two histories of 2-6 verifications (quotes of up to 3 worlds, flags / pool / times edited between calls, per-call wire / clock / pool faults) each through ONE options value, interleaved by the seeded scheduler at the Getter seam; every verdict compared with a fresh options value. (C) the same with Options.Now unset on the testing/synctest fake clock with jumps of hours / weeks / decades between calls. " +
+		Rule: "three kinds of runs. (A, half of the runs) one seeded world (platform or processor CA), honest or with one of 29 static faults (wire, endpoint, revocation, TCB status, clock, pool, signature; out-of-date copies of the root / intermediate / leaf / collateral signer / CRL issuer as carried in the quote and in issuer-chain headers while the pool holds the current root; stale CRL or TCB Info; two CRL distribution points serving different CRLs; a decoy issuer-chain header under a case-variant name), verified under all four option settings with a recording fetcher: monotonicity acc(O2)=>acc(O1)=>acc(O0), O3 rejects, the same verdicts on networks with other (simulated) service times per URL and on 4-48 plain repetitions, zero fetches without the collateral option, CRL routes only with revocation, fmspc / ca query parameters equal to what the CA put in the leaf. (B) two histories of 2-6 verifications (quotes of up to 3 worlds, flags / pool / times edited between calls, per-call wire / clock / pool faults) each through ONE options value, interleaved by the seeded scheduler at the Getter seam; every verdict compared with a fresh options value. (C) the same with Options.Now unset on the testing/synctest fake clock with jumps of hours / weeks / decades between calls. " +
 			"distinct = (fault, CA kind, verdict vector) resp. (history length, switches) resp. (calls, expiry seen)",
 		Assumptions: []string{"number, order and repetition of fetches are not judged, only which routes may be contacted and their parameters"},
 		RealStub:    map[string]string{"verify.RawTdxQuote": "real", "pcs URL builders": "real (checked by the stub's own URL parser)", "Intel PCS": "stub (recording)", "clock": "Options.Now from the simulated clock; part C: testing/synctest fake clock read by the library's time.Now"},
@@ -436,7 +509,7 @@ func init() {
 			return 800
 		},
 		Run:         c12Run,
-		MustProbe:   []string{"processor_ca_world", "tcb_url_checked", "pckcrl_url_checked_platform", "pckcrl_url_checked_processor", "shared_options_history", "expiry_between_calls_under_default_time"},
+		MustProbe:   []string{"processor_ca_world", "tcb_url_checked", "pckcrl_url_checked_platform", "pckcrl_url_checked_processor", "shared_options_history", "expiry_between_calls_under_default_time", "same_world_on_other_network_timings"},
 		SimTimeNote: "part C: fake-clock time covered by the clock-jump histories",
 	})
 }
